@@ -1491,3 +1491,4 @@ benign_patch("refactor_s11_19", "benign/set11_19_mem_rename_if_let.diff", note='
 benign_patch("refactor_s11_20", "benign/set11_20_mem_remove_file_is_none_early_return.diff", note='mem remove_file: named Option + is_none() early return (FS-3 uses the generic Option tests)')
 mut("revert_D23", ["C09"], "PROG-2|db::DB::make_room_for_write", patch="revert_D23_empty_memtable_has_no_room.diff", note="tiny max_memtable_size: the first write rotates empty memtables for ever (defect D23)")
 mut("revert_D10", ["C09"], "ORD-12|<db::DB as std::ops::Drop>::drop|the-worker-is-stopped-whoever-else-holds-it", patch="revert_D10_drop_unwraps_arc_get_mut.diff", note="closing with a live iterator panics in Drop (defect D10)")
+mut("revert_D25", ["C15", "C13"], "GRD-37|tables::table::Table::read_block_from_disk", patch="revert_D25_block_handle_unchecked.diff", note="a damaged footer handle aborts the process in the allocator (defect D25)")
